@@ -16,6 +16,8 @@ def install(tier="quick"):
         mods.append(lexer_fns)
     except ImportError:
         pass
+    from . import grammar
+    mods.append(grammar)
     for m in mods:
         for name in dir(m):
             c = getattr(m, name)
